@@ -86,7 +86,7 @@ def run_script(path, argv, world, capture):
 # ==========================================================================
 def gen_mibdump(rng, tier):
     n = rng.choice([1, 2, 3])
-    specs = mibgen.gen_modules(rng, n, cycles=rng.random() < 0.3, defects=0.2, smiv1=0.1)
+    specs = mibgen.gen_modules(rng, n, cycles=rng.random() < 0.3, defects=0.2, smiv1=0.1, oiddefval=0.1)
     names = sorted(specs)
     fnames = {}
     for m in names:
